@@ -157,7 +157,9 @@ Definition holds_on (c : pcase) : bool :=
   | OpTotal, OutF f => q_close_rel (qf0 f) (qsum (qints inp)) eps12
   | OpScale f, OutTip o =>
       mz_same inp (peaks o) && f_same (origin p) (origin o)
-      && list_agree (fun x y => q_close_rel (qf0 (inten y)) (qf0 (inten x) * qf0 f) eps14) inp (peaks o)
+      (* one rounding: 1e-14 relative, or -- when the product falls into the subnormal range -- half a subnormal spacing *)
+      && list_agree (fun x y => q_close_rel (qf0 (inten y)) (qf0 (inten x) * qf0 f) eps14
+                                || q_close_abs (qf0 (inten y)) (qf0 (inten x) * qf0 f) (1 # (Pos.pow 2 1074))) inp (peaks o)
   | OpShift off, OutTip o | OpCloneShifted off, OutTip o =>
       (* a correctly rounded sum is within 2^-53 (relative) of the exact one; 1e-15 leaves room for a different but honest addition *)
       list_agree (fun x y => f_same (inten x) (inten y) && q_close_rel (qf0 (mz y)) (qf0 (mz x) + qf0 off) eps15) inp (peaks o)
